@@ -196,14 +196,36 @@ theorem manager_invariant (d cap maxW : Nat) (hd : 1 ≤ d) (es : List Ev) :
   obtain ⟨m', h1, h2, _⟩ := wmRun_inv hd es _ h0
   exact ⟨m', h1, h2⟩
 
-/-- The full observation-level statement for the manager (every clause of `wmStepOk`, including the frame
-clause "every other window untouched" and "`e` occurs exactly once") along every history of distinct events.
-It is evaluated on the implementation by the oracle and checked against the model by the correspondence run,
-but it is NOT proved here; `manager_places_once` and `manager_invariant` are the proved part. -/
-def wm_model_meets_spec_full : Prop :=
-  ∀ (div : Int → Nat → Nat) (d cap maxW : Nat) (es : List Ev) (tr : List (List WObs)),
-    1 ≤ d → es.Nodup → wmTrace div (WM.new .tumbling d cap maxW) es = some tr →
-    wmRunOk div d cap maxW [] es tr = true
+/-- **Every run of a tumbling manager (`d ≥ 1`) over distinct events satisfies every clause of the
+observation-level step predicate `wmStepOk`** (the predicate the oracle evaluates on `active_windows` of the
+implementation after each `process_event`): windows are aligned intervals listed by strictly increasing start,
+at most `maxW`, none ended at or before the event; a window holds only events of its own interval; the aligned
+window of `e` holds exactly its previous content plus `e` (last in arrival order), minus what the cap pushed
+out oldest-first; every other window is an old window with its events untouched (none invented); unless
+`maxW = 0` the aligned window exists; and `e` occurs exactly once over all windows (0 times iff `maxW = 0` or
+`cap = 0`); aggregates of every window are the folds over its events. No hypothesis on `cap`, `maxW` or the
+arrival order is needed: the `remove(0)`-before-sort quirk of the window limit removes whole old windows only
+and never the one that just received `e`. -/
+theorem wm_model_meets_spec (div : Int → Nat → Nat) (d cap maxW : Nat) (es : List Ev) (tr : List (List WObs))
+    (hd : 1 ≤ d) (hnd : es.Nodup) (h : wmTrace div (WM.new .tumbling d cap maxW) es = some tr) :
+    wmRunOk div d cap maxW [] es tr = true := by
+  have h0 : MInv d (WM.new .tumbling d cap maxW) :=
+    ⟨rfl, rfl, by simp [WM.new], by simp [WM.new], by simp [WM.new]⟩
+  exact wm_trace_ok div hd es (WM.new .tumbling d cap maxW) [] tr h0
+    (by intro w hw; simp [WM.new] at hw) hnd (by simp) h
+
+/-- for `d ≥ 1` the trace is always defined (the manager never panics), so the theorem above is not vacuous -/
+theorem wm_trace_defined (div : Int → Nat → Nat) (d cap maxW : Nat) (hd : 1 ≤ d) (es : List Ev) :
+    ∃ tr, wmTrace div (WM.new .tumbling d cap maxW) es = some tr := by
+  have h0 : MInv d (WM.new .tumbling d cap maxW) :=
+    ⟨rfl, rfl, by simp [WM.new], by simp [WM.new], by simp [WM.new]⟩
+  generalize WM.new .tumbling d cap maxW = m at h0
+  induction es generalizing m with
+  | nil => exact ⟨[], rfl⟩
+  | cons e es ih =>
+    obtain ⟨m', hp, hm', _⟩ := process_spec hd h0 e
+    obtain ⟨rest, hr⟩ := ih m' hm'
+    exact ⟨m'.windows.map (TW.wobs div) :: rest, by simp [wmTrace, hp, hr]⟩
 
 def exM : WM :=
   { wtype := .tumbling, dur := 10, cap := 100, maxW := 100,
